@@ -1,6 +1,7 @@
 package sim
 
 import (
+	"strings"
 	"fmt"
 	"os"
 	"path/filepath"
@@ -177,14 +178,14 @@ func (w *World) Act(r *Replica) {
 }
 
 func (w *World) AddHub(name string) *Hub {
-	dir := filepath.Join(w.Root, name+".git")
+	dir := filepath.Join(w.Root, strings.ReplaceAll(name, "/", "_")+".git")
 	r, err := gogit.PlainInit(dir, true)
 	if err != nil {
 		panic(err)
 	}
 	h := &Hub{Name: name, Dir: dir, Repo: r}
 	w.Hubs = append(w.Hubs, h)
-	w.Net.AddHub(name, r.Storer)
+	w.Net.AddHub(HostOf(name), r.Storer)
 	return h
 }
 
@@ -306,7 +307,7 @@ func (r *Replica) drop() {
 
 func (r *Replica) AddRemote(name string, hub *Hub) error {
 	r.Remotes = append(r.Remotes, name)
-	return r.Raw.AddRemote(name, "sim://"+hub.Name+"/")
+	return r.Raw.AddRemote(name, "sim://"+HostOf(hub.Name)+"/")
 }
 
 // Observer opens a side-effect-free read handle on the replica's current storage.
@@ -337,3 +338,7 @@ func RefTable(rd interface {
 
 // Cur is the replica currently acting (its wall clock is the one git-bug reads).
 func (w *World) Cur() *Replica { return w.cur }
+
+// HostOf gives the host part of a hub's sim:// address. Remote (and hub) names may hold slashes,
+// as git allows ("team/shared"); a host name may not.
+func HostOf(hubName string) string { return strings.ReplaceAll(hubName, "/", ".") }
